@@ -16,6 +16,7 @@ import (
 
 	"google.golang.org/grpc"
 	"google.golang.org/grpc/codes"
+	"google.golang.org/grpc/metadata"
 	"google.golang.org/grpc/status"
 	"google.golang.org/protobuf/proto"
 	"pgregory.net/rapid"
@@ -58,6 +59,7 @@ type c14Case struct {
 	Timeout   string `json:",omitempty"` // forward: GRPC-Timeout header of the request (e.g. "1n": the handler's own deadline passes, the request lives on)
 	OKErr     bool   `json:",omitempty"` // forward: the handler returns a non-nil error whose gRPC status says OK
 	Wrapped   bool   `json:",omitempty"` // forward: the handler adds context to its status error with %w
+	MDOpts    bool   `json:",omitempty"` // forward: the caller asks for response metadata (grpc.Header and grpc.Trailer call options)
 	Renderer  string // "default" | "nothing" | "teapot" | "option-default"
 	Carrier   string // "server" | "mux"
 	HTTP      int    // fallback: HTTP status
@@ -207,7 +209,13 @@ func c14Forward(c c14Case, o *Outcome) *Outcome {
 			return &rr, nil
 		})}
 		out := new(pb.Message)
-		err := ch.Invoke(context.Background(), mUnary, &pb.Message{}, out)
+		var copts []grpc.CallOption
+		var hmd, tmd metadata.MD
+		if c.MDOpts {
+			o.class("forward/with-metadata-call-options")
+			copts = append(copts, grpc.Header(&hmd), grpc.Trailer(&tmd))
+		}
+		err := ch.Invoke(context.Background(), mUnary, &pb.Message{}, out, copts...)
 		got := status.Code(err)
 		obs["client_code"] = uint32(got)
 		if _, isStatus := status.FromError(err); !isStatus {
@@ -484,7 +492,8 @@ func genC14(t *rapid.T) c14Case {
 		Renderer:  rapid.SampledFrom([]string{"default", "nothing", "teapot", "option-default"}).Draw(t, "renderer"),
 		Carrier:   rapid.SampledFrom([]string{"server", "mux"}).Draw(t, "carrier"),
 		Timeout:   rapid.SampledFrom([]string{"", "", "1n", "0m", "1H"}).Draw(t, "timeout"),
-		Wrapped:   rapid.IntRange(0, 3).Draw(t, "wrapped") == 0}
+		Wrapped:   rapid.IntRange(0, 3).Draw(t, "wrapped") == 0,
+		MDOpts:    rapid.IntRange(0, 2).Draw(t, "mdopts") == 0}
 }
 
 func init() { registerReplay("C14", propC14) }
